@@ -182,6 +182,12 @@ def _finish_fn(item, sig, body, sig_line, body_line, qual, impl_header, relfile,
             raise ExtractError('unsupported construct in %s: %s' % (qual, e))
     sig = _apply_rules(sig, item.get('sig_rules', []) + rules, log, sig_line, qual)
     body = _apply_rules(body, item.get('body_rules', []) + rules, log, body_line, qual)
+    if item.get('r7'):
+        from . import rules as RL7
+        try:
+            body = RL7.r7_str_match(body, log, body_line, qual)
+        except RL7.UnsupportedConstruct as e:
+            raise ExtractError('unsupported construct in %s: %s' % (qual, e))
     if item.get('r6'):
         from . import rules as RL6
         body = RL6.r6_floats(body, log, body_line, qual, extra_float_vars=item.get('f64_vars', ()))
